@@ -136,6 +136,7 @@ SPEC = {
         _h("c05_g_timeouts_k2", Q, "history/blocks against timeouts", "fresh node, window 0; 2 events among 2 blocks, 2 timeouts, invalid block, first shred", 2),
         _h("c05_g_timeouts_k3", T, "history/blocks against timeouts", "fresh node, window 0; 3 events among 2 blocks, 2 timeouts, invalid block", 2),
         _h("c05_g_final_k2", Q, "history/finalization against fallback votes", "slot 1 notarized (concrete prefix); 2 events among 2 notarization certificates, safe-to-notar, safe-to-skip, next block, timeout", 4),
+        _h("c05_g_certfirst_k2", Q, "history/certificates before blocks", "fresh node; 2 events among the notarization certificates of two competing blocks of slot 1 and the two blocks", 2),
         _h("c05_g_final_k3", T, "history/finalization against fallback votes", "slot 1 notarized (concrete prefix); 3 events among 3 notarization certificates, safe-to-notar, safe-to-skip, next block", 2),
         _h("c05_g_retired_k2", Q, "history/after the final vote", "slot 1 notarized and finalized (concrete prefix); 2 events among safe-to-notar, safe-to-skip, timeout, invalid block, competing block, notarization and finalization certificates", 3),
         _h("c05_g_skipped_k2", Q, "history/skipped slot", "window 0 skipped (concrete prefix); 2 events among late block, 2 safe-to-notar, notarization / notar-fallback / skip certificates", 2),
